@@ -547,6 +547,26 @@ def run(ctx):
                 okw = len(ws) == 1 and ws[0][1] == name + '_' and q.param_by_index(h, 0) in h.subtree_refs(ws[0][0])
                 ctx.check(okw, R9, 'content_limits::%s(v):writes-own-member-from-v' % name, 'writes %s' % ([x_[1] for x_ in ws],), h.where)
     ctx.floor(R9, 20)
+    # ---------------- R10 the kind flags of the content filter follow the filter
+    R10 = ctx.rule('C12.R10', 'request keeps what kind of filter is installed in two flags next to the pointer and on_content_progress dispatches on the flags alone: every function that writes _data::filter '
+                              'brings both flags up to date on every path from that write to its exit (a cleared pointer with a flag left set is a call through a null filter when the next chunk arrives)')
+    FLT = 'cppcms::http::request::_data::filter'
+    flags_ = ('filter_is_raw_content_filter', 'filter_is_multipart_filter')
+    n10 = 0
+    for f in sorted([g for g in P.fns.values() if g.record == RQ and g.body is not None], key=lambda g: g.id):
+        ws = [w_ for w_ in q.field_writes(f, '_data::filter') if (f.ref_of(f.N(w_)['ch'][0]) if f.N(w_)['k'] == 'BinaryOperator' else '') == 'f:' + FLT]
+        if not ws:
+            continue
+        for k_, w_ in enumerate(ws):
+            n10 += 1
+            miss = [fl for fl in flags_ if not q.always_after(f, w_, q.field_writes(f, '_data::' + fl))]
+            ctx.check(not miss, R10, '%s:filter-write#%d:flags-follow' % (f.short, k_), 'the filter pointer is written and %s can keep its old value: content is dispatched to a filter that is no longer there' % miss, f.loc(w_))
+    ctx.require(n10 >= 3 or ctx.violations, 'C12.R10: writes of request::_data::filter not found (%d)' % n10)
+    # the dispatch side reads the flags, not the pointer: keep that coupling visible
+    ocp = P.fn(RQ + '::on_content_progress')
+    rdf = [i for i in ocp.all_nodes() if ocp.N(i)['k'] == 'MemberExpr' and (ocp.N(i).get('ref') or '').endswith('::filter_is_raw_content_filter')]
+    ctx.check(bool(rdf), R10, 'on_content_progress:dispatches-on-the-flags', 'the dispatch no longer reads the flags (rule out of date)', ocp.where)
+    ctx.floor(R10, 4)
     # ---------------- R8 the upload stream buffer hands characters out as int_type without sign extension
     R8 = ctx.rule('C12.R8', 'http::impl::file_buffer (the stream buffer uploads are read back through): underflow / uflow / pbackfail return a character only through traits_type::to_int_type or an unsigned char '
                             'conversion - a plain char converted to int makes byte 0xFF equal to EOF and cuts the content short at a refill boundary')
